@@ -61,6 +61,7 @@ extern unsigned long env_sc_calls[ENV_NSC];
 extern int env_fail_next_evfd_errno;
 /* hook: EINTR injection on read/write/epoll_ctl (return 1 to inject) */
 extern int (*env_eintr_hook)(const char *what, int fd);
+extern void (*env_after_eagain_hook)(const char *what, int fd);   /* called when splice() just returned EAGAIN */
 extern int (*env_read_override)(int fd, void *buf, size_t n, ssize_t *ret);
 extern int (*env_write_override)(int fd, const void *buf, size_t n, ssize_t *ret);
 extern int (*env_shutdown_hook)(int fd, int how);   /* return 1 if handled */
